@@ -273,11 +273,9 @@ class Parser:
 
         element = Class(**parameters, **subcircuits)
         element.set_label(label)
-        element.set_lower_limits(
-            **{k: v for k, v in lower_limits.items() if not isnan(v)}
-        )
-        element.set_upper_limits(
-            **{k: v for k, v in upper_limits.items() if not isnan(v)}
+        element._set_limits(
+            {k: v for k, v in lower_limits.items() if not isnan(v)},
+            {k: v for k, v in upper_limits.items() if not isnan(v)},
         )
         element.set_fixed(**fixed_parameters)
 
